@@ -165,3 +165,21 @@ Proof. vm_compute. eexists _, _. repeat split. Qed.
 Example C14_ex_map_partial_iterate :
   exists st outs, mp_run mp_init c14_witness_ops = Ret (st, outs) /\ mp_get st 11 = Some 2 /\ mp_load st = 4.
 Proof. vm_compute. eexists _, _. repeat split. Qed.
+
+(* a reachable, non-trivial state satisfying the invariant that the per-operation
+   theorems assume: two rows in use, one relocation done *)
+Example C14_ex_inv_nontrivial :
+  exists st, mx_run 2 3 mx_init [OAdd 1 10; OAdd 2 11; OAdd 3 12; OAdd 4 13; OAdd 5 14; ODel 2] = Ret (st, []) /\
+    matrix_inv 2 3 st /\ mx_load 2 st = 4 /\ mx_get st 14 = Some 5 /\ cell st 0 1 = Some 5.
+Proof.
+  destruct (C14_matrix_registry_refines_map_partial 2 3 ltac:(reflexivity) ltac:(reflexivity)
+              [OAdd 1 10; OAdd 2 11; OAdd 3 12; OAdd 4 13; OAdd 5 14; ODel 2])
+    as (st & outs & E & I & _).
+  - cbn; repeat split; try reflexivity;
+      try (intros H; cbn in H; repeat (destruct H as [H|H]; try discriminate H); contradiction);
+      try (cbn; tauto).
+  - cbn. repeat split; reflexivity.
+  - repeat (apply Forall_cons; [exact Logic.I|]). apply Forall_nil.
+  - vm_compute in E. inversion E; subst st outs. eexists. split; [vm_compute; reflexivity|].
+    split; [exact I|]. vm_compute. repeat split.
+Qed.
